@@ -72,9 +72,42 @@ def _tpi(kinds):
     return c
 
 
-contract("C08", "TwoPointInteraction/stub-body-body", samples=0, replayable=False, timeout=120)(_tpi(("body", "body")))
-contract("C08", "TwoPointInteraction/stub-point-body", samples=0, replayable=False, timeout=120)(_tpi(("point", "body")))
-contract("C08", "TwoPointInteraction/stub-frame-point", tiers=("thorough",), samples=0, replayable=False, timeout=120)(_tpi(("frame", "point")))
+def _tpi_real(k):
+    """the same provider obligations on two real RigidBodies with offset attachment points (native witness)"""
+    from cardillo.discrete.rigid_body import RigidBody
+    from contracts.subsys import RealPair
+
+    t = k.real("t")
+    subs = []
+    for tag, off in (("a", 0), ("b", 1)):
+        s = RigidBody(1.0, np.eye(3))
+        q = k.reals(tag + "q", 7, sample=lambda g: np.concatenate([g.normal(size=3) * 2, g.normal(size=4)]))
+        k.assume(q[3:] @ q[3:] > 1e-2)
+        u, ud = k.reals(tag + "u", 6), k.reals(tag + "ud", 6)
+        s.q0, s.u0, s.t0 = q, u, 0.0
+        s.qDOF = np.arange(7) + 7 * off
+        s.uDOF = np.arange(6) + 6 * off
+        subs.append((s, q, u, ud))
+    (s1, q1, u1, ud1), (s2, q2, u2, ud2) = subs
+    tp = TwoPointInteraction(s1, s2, B_r_CP1=k.reals("B1", 3), B_r_CP2=k.reals("B2", 3))
+    tp.assembler_callback()
+    pair = RealPair(k, s1, s2, t, q1, u1, ud1, q2, u2, ud2)
+    q, u = pair.q, pair.u
+    k.prove_eq("l_q=dl/dq", tp.l_q(t, q), pair.d_q(lambda t_, q_: tp.l(t_, q_))[0])
+    k.prove_eq("l_dot=D_t l", tp.l_dot(t, q, u), pair.D_t(lambda t_, q_: tp.l(t_, q_))[0])
+    k.prove_eq("l_dot_q=d l_dot/dq", tp.l_dot_q(t, q, u), pair.d_q(lambda t_, q_, u_: tp.l_dot(t_, q_, u_))[0])
+    dlu = pair.d_u(lambda t_, q_, u_: tp.l_dot(t_, q_, u_))[0]
+    k.prove_eq("l_dot_u=d l_dot/du", tp.l_dot_u(t, q, u), dlu)
+    k.prove_eq("W_l=(d l_dot/du)^T", tp.W_l(t, q), dlu)
+    k.prove_eq("W_l_q=dW_l/dq", tp.W_l_q(t, q), pair.d_q(lambda t_, q_: tp.W_l(t_, q_)))
+    n_q1, n_q2 = tp._n_q(t, q)
+    k.prove_eq("_n_q=dn/dq", np.hstack([n_q1, n_q2]), pair.d_q(lambda t_, q_: tp._n(t_, q_)))
+
+
+_tpi_w = conc_witness(_tpi_real, "TwoPointInteraction between two real RigidBodies with offset attachment points")
+contract("C08", "TwoPointInteraction/stub-body-body", samples=0, replayable=False, timeout=120, witness=_tpi_w)(_tpi(("body", "body")))
+contract("C08", "TwoPointInteraction/stub-point-body", samples=0, replayable=False, timeout=120, witness=_tpi_w)(_tpi(("point", "body")))
+contract("C08", "TwoPointInteraction/stub-frame-point", tiers=("thorough",), samples=0, replayable=False, timeout=120, witness=_tpi_w)(_tpi(("frame", "point")))
 
 
 def _revolute(axis):
